@@ -207,3 +207,7 @@ def run(U, rep, tier):
   no_alias(U, rep, tier)
   from braxlint.props import c13
   c13.geometry_preserved(U, rep, tier, rule='R10.5', nonunit=False)
+  # R10.6: ... on every load path: what is serialised / compiled (included files too) went through _fuse_bodies -- else a
+  # jointless body survives and geom_bodyid - 1 no longer names the owning link (shared with C13 R13.3)
+  from braxlint.props.c16 import _Relabel
+  c13.r13_3_paths(U, _Relabel(rep, 'R10.6'))
